@@ -165,7 +165,10 @@ def check(ctx: Ctx) -> None:
 
     with ctx.obligation("C10.b", "receive-refused") as ob:
         none_store = [n for n in cfg.nodes if isinstance(n.ast, ast.Assign) and unparse(n.ast.targets[0]) == "self._items" and n.id in cfg.live()]
-        ob.require(len(none_store) == 1, "`self._items = None` not found in setcallback")
+        if not none_store:
+            ob.violation(f_set, f_set.node, "setcallback never switches _items to None: receive() stays enabled next to the callback and items go to whoever comes first",
+                         construct="no _items = None")
+            raise AnalysisError("C10.b: remaining sub-checks need the `_items = None` store")
         ns = none_store[0]
         ob.site(f_set, ns.ast, "_items := None before draining / registering")
         if not (isinstance(ns.ast.value, ast.Constant) and ns.ast.value.value is None):
